@@ -620,11 +620,58 @@ DT = dict(NULL=0, NEEDED=1, PLTRELSZ=2, HASH=4, STRTAB=5, SYMTAB=6, RELA=7, RELA
           RELRENT=37, GNU_HASH=0x6ffffef5)
 
 
+TAGNAME = {0: 'DT_NULL', 1: 'DT_NEEDED', 2: 'DT_PLTRELSZ', 4: 'DT_HASH', 5: 'DT_STRTAB', 6: 'DT_SYMTAB', 7: 'DT_RELA', 8: 'DT_RELASZ',
+           9: 'DT_RELAENT', 10: 'DT_STRSZ', 11: 'DT_SYMENT', 14: 'DT_SONAME', 15: 'DT_RPATH', 17: 'DT_REL', 18: 'DT_RELSZ', 19: 'DT_RELENT',
+           20: 'DT_PLTREL', 21: 'DT_DEBUG', 23: 'DT_JMPREL', 25: 'DT_INIT_ARRAY', 27: 'DT_INIT_ARRAYSZ', 29: 'DT_RUNPATH', 35: 'DT_RELRSZ',
+           36: 'DT_RELR', 37: 'DT_RELRENT', 0x6ffffef5: 'DT_GNU_HASH'}
+
+
 def _c09_data(name):
     """Corpus image, or a synthetic dynamically linked image written by dst/core/elfbuild.py from the seed in its name."""
     if name.startswith('synthdyn:'):
         return elfbuild.build_dynamic(substream(int(name.split(':', 1)[1]), 'image'))[0]
     return env.corpus_bytes(name)
+
+
+def _c09_truth(name):
+    if name.startswith('synthdyn:'):
+        return elfbuild.build_dynamic(substream(int(name.split(':', 1)[1]), 'image'))[1]['truth']
+    return None
+
+
+def _truth_check(seg, truth, viol):
+    """Synthetic images only: the segment view against what the image writer encoded (ground truth of the workload)."""
+    st, tags = _try(lambda: list(seg.iter_tags()))
+    if st != 'ok':
+        viol('truth:tags', 'the encoded tags', jsonable(tags, 300))
+        return
+    got = [[t.entry.d_tag, t.entry.d_val] for t in tags]
+    exp = [[TAGNAME.get(t, t), v] for t, v in truth['tags']]
+    if got != exp:
+        viol('truth:tags', 'exactly the encoded entries up to and including the terminator', _first_diff(exp, got))
+    strs = [[t.entry.d_tag, getattr(t, t.entry.d_tag[3:].lower(), None)] for t in tags
+            if t.entry.d_tag in ('DT_NEEDED', 'DT_SONAME', 'DT_RPATH', 'DT_RUNPATH')]
+    exps = [[TAGNAME[t], v] for t, v in truth['strings']]
+    if strs != exps:
+        viol('truth:strings', 'the encoded strings', _first_diff(exps, strs))
+    st, syms = _try(lambda: [[x.name, x['st_value']] for x in seg.iter_symbols()])
+    if st != 'ok' or syms != truth['symbols']:
+        viol('truth:symbols', 'the encoded dynamic symbols', jsonable(syms, 300) if st != 'ok' else _first_diff(truth['symbols'], syms))
+    st, tabs = _try(seg.get_relocation_tables)
+    if st != 'ok':
+        viol('truth:relocation tables', sorted(truth['rel']), jsonable(tabs, 300))
+        return
+    if sorted(tabs) != sorted(truth['rel']):
+        viol('truth:relocation tables', sorted(truth['rel']), sorted(tabs))
+    for kind, exp in truth['rel'].items():
+        if kind not in tabs:
+            continue
+        if kind == 'RELR':
+            st, got = _try(lambda: [x['r_offset'] for x in tabs[kind].iter_relocations()])
+        else:
+            st, got = _try(lambda: [[x['r_offset'], x['r_info_sym'], x['r_info_type'], x.entry.get('r_addend')] for x in tabs[kind].iter_relocations()])
+        if st != 'ok' or got != exp:
+            viol('truth:relocation table %s' % kind, 'the encoded entries (%d)' % len(exp), jsonable(got, 300) if st != 'ok' else _first_diff(exp, got))
 
 
 def _prep_c09(name):
@@ -886,6 +933,9 @@ def _c09_exec(spec):
             if st != 'ok' or tuple(val) != a['ptr'][tag]:
                 viol('get_table_offset', list(a['ptr'][tag]), jsonable(canon(val), 200))
         log.append((q, stream.ops, stream.pos))
+    truth = _c09_truth(name)
+    if truth is not None and variant is None:
+        _truth_check(elf.get_segment(info['seg_index']), truth, viol)
     return dict(spec=spec, violations=violations, digest=pdigest(log, [v['key'] for v in violations]), nontrivial=fired,
                 nt_digest=pdigest(name, mode, queries, p_disp), evaluations=1, sim_time=stream.clock.seq,
                 faults={'shloss_' + mode: [1, int(fired)], **({'decoy_pointer_tag': [1, 1]} if variant else {})},
